@@ -43,8 +43,13 @@ NewItem(o, id, r, t) ==
 ObsSubmit(o, e) == NewItem(o, Qid(e.q), e.r, e.t)
 
 \* the handler of invocation inv has been called for request (r, tok): its response will carry that token
-ObsCall(o, e) == [o EXCEPT !.bytok = Put(@, <<e.r, e.tok>>, Iid(e.inv)),
-                           !.item = Put(@, Iid(e.inv), [r |-> e.r, ready |-> -1, seq |-> 0, tx |-> -1, con |-> FALSE, failed |-> FALSE])]
+\* (a request that re-uses the token of an earlier request of that peer overrides it -- RFC 7641 re-registration,
+\* clients that gave the first one up: what is still owed for the earlier one counts as failed, not as forgotten)
+ObsCall(o, e) ==
+  LET k == <<e.r, e.tok>>
+      o1 == IF Has(o.bytok, k) /\ o.item[o.bytok[k]].tx < 0 THEN [o EXCEPT !.item[o.bytok[k]].failed = TRUE] ELSE o
+  IN [o1 EXCEPT !.bytok = Put(@, k, Iid(e.inv)),
+                !.item = Put(@, Iid(e.inv), [r |-> e.r, ready |-> -1, seq |-> 0, tx |-> -1, con |-> FALSE, failed |-> FALSE])]
 
 ObsRelease(o, e) ==
   IF Has(o.item, Iid(e.inv)) /\ o.item[Iid(e.inv)].ready < 0 /\ e.x \in {"ok", "nocode"}
